@@ -62,6 +62,9 @@ var catalogue = []faultClass{
 	{"dhGen", "server_nonce", "flip", 128}, {"dhGen", "server_nonce", "random", 0}, {"dhGen", "server_nonce", "other", 0}, {"dhGen", "server_nonce", "zero", 0},
 	{"dhGen", "new_nonce_hash", "flip", 128}, {"dhGen", "new_nonce_hash", "hash2", 0}, {"dhGen", "new_nonce_hash", "hash3", 0}, {"dhGen", "new_nonce_hash", "random-hash", 0},
 	{"dhGen", "kind", "gen_retry", 0}, {"dhGen", "kind", "gen_fail", 0},
+	// the second exchange of the same client object (the application reconnects after the first one failed) is answered
+	// with the first exchange's nonce first, as a late reply would be, and conformantly after that
+	{"resPQ", "nonce", "previous-exchange", 128},
 	// a reply of the wrong kind that is no constructor of the exchange at all: rpc_error, with texts the client handles
 	// by itself elsewhere (the "bit" selects the text)
 	{"resPQ", "kind", "rpc_error", len(rpcErrors)}, {"dhParams", "kind", "rpc_error", len(rpcErrors)}, {"dhGen", "kind", "rpc_error", len(rpcErrors)},
@@ -214,6 +217,7 @@ func TestC07(t *testing.T) {
 		idx := 0
 		var n int64
 		failedClass := map[string]bool{}
+		lastStep := 0
 		for ci, fc := range catalogue {
 			var bits []int
 			switch {
@@ -245,6 +249,15 @@ func TestC07(t *testing.T) {
 				}
 				// the server considers the key established once it answered the last step: it may go on speaking
 				sc.Aftermath = []string{"", "new-session", "bad-salt", "update", "close", "app-reconnect"}[idx/nsh%6]
+				if fc.Step == "dhGen" {
+					// only after the last step does the server hold a key to speak with: every continuation is played by
+					// every run (this shard's k-th such case takes continuation k + shard)
+					sc.Aftermath = []string{"new-session", "bad-salt", "update", "close", "app-reconnect", ""}[(lastStep+run.Shard)%6]
+					lastStep++
+				}
+				if fc.Kind == "previous-exchange" {
+					sc.Aftermath = "app-reconnect"
+				}
 				n++
 				if err := evaluate(sc); err != nil {
 					if strings.HasPrefix(err.Error(), "INFRA:") {
@@ -277,6 +290,9 @@ func TestC07(t *testing.T) {
 				sc.HS.P, sc.HS.Q = 65537, 4294967291
 			}
 			sc.Aftermath = rapid.SampledFrom([]string{"", "new-session", "bad-salt", "update", "close", "app-reconnect"}).Draw(t, "aftermath")
+			if fc.Kind == "previous-exchange" {
+				sc.Aftermath = "app-reconnect"
+			}
 			if err := evaluate(sc); err != nil {
 				if strings.HasPrefix(err.Error(), "INFRA:") {
 					t.Skipf("%v", err)
